@@ -478,6 +478,70 @@ pub fn sweeps(ctx: &Ctx) -> Vec<Sweep> {
             }
         }));
     }
+    // packages whose per-file arrays disagree in length (in the main header and in the signature header): no panic, nothing outside
+    {
+        use vlib::refhdr::Val;
+        let env = Env::new(&ctx.repo, "c12m");
+        let mut bases: Vec<(String, Vec<u8>)> = vec![];
+        for (n, s) in [("boundary sizes (11 files)", crate::corpus::sizes()), ("rich configuration", crate::corpus::rich())] {
+            let mut s = s;
+            s.compression = Comp::None;
+            bases.push((n.to_string(), s.build_bytes(&env).unwrap_or_else(|e| crate::ctx::machinery(&format!("c12 metadata base: {}", e))).1));
+        }
+        bases.push(("asset with IMA file signatures".to_string(), std::fs::read(ctx.asset("test_assets/ima_signed.rpm")).unwrap_or_else(|e| crate::ctx::machinery(&format!("ima_signed.rpm: {}", e)))));
+        // (in the signature header?, tag, kind: 0 = string array, 1 = INT32, 2 = INT16, 3 = INT64)
+        const TAGS: [(bool, u32, u8); 20] = [
+            (false, 1028, 1), (false, 1030, 2), (false, 1033, 2), (false, 1034, 1), (false, 1035, 0), (false, 1036, 0), (false, 1037, 1), (false, 1039, 0), (false, 1040, 0), (false, 1045, 1),
+            (false, 1095, 1), (false, 1096, 1), (false, 1097, 1), (false, 1098, 1), (false, 1116, 1), (false, 1117, 0), (false, 5008, 3), (false, 5010, 0), (true, 274, 0), (false, 1118, 0),
+        ];
+        let lens = |n: usize| [0usize, 1, n.saturating_sub(1), n + 1, 2 * n + 3];
+        let n = (bases.len() * TAGS.len() * 5) as u64;
+        v.push(Sweep::new("hostile-metadata", format!("3 packages (two built ones, the asset with per-file IMA signatures) × each of 20 per-file tags (sizes, modes, devices, times, digests, link targets, flags, owners, verify flags, colours, classes, dependency indexes, directory indexes, base names, 64-bit sizes, capabilities, directory names; the file signatures of the signature header) × replaced by an array of 0 (tag absent), 1, n−1, n+1, 2n+3 items: extraction ends with Ok or Err, never a panic, and changes nothing outside the target ({} packages)", n), n, {
+            let jail = Jail::new("hm");
+            move |i, acc| {
+                let (bi, ti, li) = ((i / 100) as usize, (i / 5 % 20) as usize, (i % 5) as usize);
+                let (bname, bytes) = &bases[bi];
+                let (in_sig, tag, kind) = TAGS[ti];
+                acc.evals += 1;
+                let Some(mut parts) = crate::pkgtool::split(bytes) else { return acc.count("base cannot be split") };
+                let nfiles = match crate::pkgtool::get(&parts.main, 1117) {
+                    Some(Val::StrArray(a)) => a.len(),
+                    _ => 0,
+                };
+                let k = lens(nfiles)[li];
+                let val = if k == 0 {
+                    None
+                } else {
+                    Some(match kind {
+                        0 => Val::StrArray((0..k).map(|j| format!("v{}", j).into_bytes()).collect()),
+                        1 => Val::Int32((0..k as u32).map(|j| j % 2).collect()),
+                        2 => Val::Int16((0..k).map(|_| 0o100644).collect()),
+                        _ => Val::Int64((0..k as u64).collect()),
+                    })
+                };
+                crate::pkgtool::set(if in_sig { &mut parts.sig } else { &mut parts.main }, tag, val);
+                let x = parts.join().0;
+                let case = || json!({"package": bname, "files": nfiles, "tag": tag, "in": if in_sig { "signature header" } else { "main header" }, "items": k});
+                let Ok(Ok(p)) = parse_pkg(&x) else { return acc.count("package rejected by the parser") };
+                jail.reset();
+                let before = jail.snapshot();
+                let r = catch(|| p.extract(jail.target_arg(0)));
+                let after = jail.snapshot();
+                acc.nontrivial += 1;
+                match &r {
+                    Err(pn) => acc.viol(panic_violation("hostile-metadata", pn, case()).sig("mechanism", "per-file-array-length").rank(i)),
+                    Ok(Ok(())) => acc.count("extract: Ok"),
+                    Ok(Err(_)) => acc.count("extract: Err"),
+                }
+                if before != after {
+                    acc.viol(Violation::new("hostile-metadata", "extraction changed the file system outside the target".to_string(), case()).sig("clause", "outside-target-touched").sig("mechanism", "per-file-array-length").rank(i));
+                }
+                if i % 37 == 0 {
+                    acc.sample(i, case);
+                }
+            }
+        }));
+    }
     // benign subset
     {
         let env = Env::new(&ctx.repo, "c12");
